@@ -244,6 +244,68 @@ pub fn hangup_probe(layout: &Layout) -> HangupObs {
   obs
 }
 
+/// C11 below the Driver seam: what the real driver does with a wait that a signal interrupts while a repeat is pending.
+/// The loop thread runs on the machine's clock here (hook clock_use_real_time); a layout with a Special repeat of `delay_ms`
+/// fires, the thread is observed blocked in epoll_wait and the time-out it armed is read from /proc/<tid>/syscall; the
+/// feeder then really sleeps `pause_ms` and sends SIGUSR1 to that thread (EINTR).  When the thread is blocked again, the
+/// time-out it armed now must not reach beyond the chord's due time: at most the first time-out minus the pause (2 ms of
+/// slack for rounding).  The bound is one-sided - a loaded machine only makes the re-armed time-out SMALLER - so no
+/// tolerance is involved and a clean tree cannot fail it.
+pub enum InterruptObs { Rearmed { first_ms: i64, after_ms: i64, pause_ms: u64 }, Machinery(String), Unavailable(String) }
+
+extern "C" fn noop_handler(_: libc::c_int) {}
+
+fn epoll_timeout_ms(tid: i32) -> Option<i64> {
+  let sc = std::fs::read_to_string(format!("/proc/self/task/{}/syscall", tid)).ok()?;
+  let f: Vec<&str> = sc.split_whitespace().collect();
+  if f.len() < 5 || f[0] != "232" { return None; } // epoll_wait(epfd, events, maxevents, timeout): the 4th argument
+  let v = u64::from_str_radix(f[4].trim_start_matches("0x"), 16).ok()?;
+  Some(v as u32 as i32 as i64)
+}
+
+pub fn interrupt_probe(delay_ms: i32, pause_ms: u64, signals: usize) -> InterruptObs {
+  use KeyCode::*;
+  let layout = Layout { mappings: vec![crate::keys::Mapping { from: vec![B], to: vec![B], repeat: crate::keys::Repeat::Special { keys: vec![C], delay_ms, interval_ms: 1000 }, absorbing: vec![] }] };
+  unsafe {
+    let mut sa: libc::sigaction = std::mem::zeroed();
+    sa.sa_sigaction = noop_handler as usize; sa.sa_flags = 0; libc::sigemptyset(&mut sa.sa_mask);
+    if libc::sigaction(libc::SIGUSR1, &sa, std::ptr::null_mut()) != 0 { return InterruptObs::Unavailable("sigaction failed".into()); }
+  }
+  let (k_loop, k_feed) = socketpair(); set_nonblock(k_loop);
+  let mut p = [0 as libc::c_int; 2]; assert!(unsafe { libc::pipe2(p.as_mut_ptr(), libc::O_NONBLOCK) } == 0, "pipe2");
+  let (out_r, out_w) = (p[0], p[1]);
+  write_all(k_loop, b"x");
+  let (tx_tid, rx_tid) = mpsc::channel::<i32>(); let (tx, rx) = mpsc::channel::<Result<(), String>>();
+  std::thread::spawn(move || {
+    let _ = tx_tid.send(unsafe { libc::syscall(libc::SYS_gettid) } as i32);
+    crate::remapping_loop::verif_hooks::clock_use_real_time(true);
+    let r = run_real_driver_on_fds(k_loop, out_w, None, layout, false);
+    let _ = tx.send(r);
+  });
+  let tid = rx_tid.recv().unwrap();
+  let inputs = [k_loop];
+  let finish = |obs: InterruptObs| -> InterruptObs { unsafe { libc::close(k_feed); } let _ = rx.recv_timeout(Duration::from_secs(5)); unsafe { libc::close(out_r); } obs };
+  match wait_settled(tid, &inputs, &rx, 0) { Wait::Quiescent => {}, Wait::Returned(r) => return InterruptObs::Machinery(format!("the loop returned {:?} at once", r)), Wait::Machinery(m) => return finish(InterruptObs::Machinery(m)) }
+  let v0 = thread_state(tid).map(|s| s.1).unwrap_or(0);
+  let bytes: Vec<u8> = [kp(B, true), SYN].iter().flat_map(|r| rec_bytes(r)).collect();
+  if !write_all(k_feed, &bytes) { return finish(InterruptObs::Machinery("feeder write failed".into())); }
+  match wait_settled(tid, &inputs, &rx, v0 + 1) { Wait::Quiescent => {}, Wait::Returned(r) => return InterruptObs::Machinery(format!("the loop returned {:?} after one key event", r)), Wait::Machinery(m) => return finish(InterruptObs::Machinery(m)) }
+  let first = match epoll_timeout_ms(tid) { Some(t) => t, None => return finish(InterruptObs::Unavailable("the loop thread is not in epoll_wait (another poll system call?): its time-out cannot be read".into())) };
+  if first <= 0 || first > delay_ms as i64 + 2 { return finish(InterruptObs::Machinery(format!("after the Special mapping fired the armed time-out is {} ms (delay {} ms)", first, delay_ms))); }
+  let mut bound = first; let mut last = first;
+  for _ in 0..signals {
+    let v1 = thread_state(tid).map(|s| s.1).unwrap_or(0);
+    std::thread::sleep(Duration::from_millis(pause_ms));
+    let rc = unsafe { libc::syscall(libc::SYS_tgkill, libc::getpid(), tid, libc::SIGUSR1) };
+    if rc != 0 { return finish(InterruptObs::Unavailable("tgkill failed".into())); }
+    match wait_settled(tid, &inputs, &rx, v1 + 1) { Wait::Quiescent => {}, Wait::Returned(r) => return InterruptObs::Machinery(format!("the loop returned {:?} after a signal", r)), Wait::Machinery(m) => return finish(InterruptObs::Machinery(m)) }
+    last = match epoll_timeout_ms(tid) { Some(t) => t, None => return finish(InterruptObs::Unavailable("time-out unreadable after the signal".into())) };
+    bound -= pause_ms as i64;
+    if last > bound + 2 { break; }
+  }
+  finish(InterruptObs::Rearmed { first_ms: first, after_ms: last, pause_ms: (first - bound) as u64 })
+}
+
 /// What the property says must be written after each step (no Special repeats in these layouts: no timers).
 pub fn reference(layout: &Layout, steps: &[Step]) -> Vec<Vec<Rec>> {
   let mut m = Mapper::for_layout(layout); let mut tablet = false; let mut out = vec![];
@@ -512,6 +574,12 @@ pub fn run_family(ctx: &Ctx, id: &str) -> RAgg {
 }
 
 pub fn replay_artefact(v: &Value) -> i32 {
+  if v["probe"] == "interrupt" {
+    match interrupt_probe(v["delay_ms"].as_i64().unwrap_or(1500) as i32, v["pause_ms"].as_u64().unwrap_or(400), v["signals"].as_u64().unwrap_or(1) as usize) {
+      InterruptObs::Rearmed { first_ms, after_ms, pause_ms } => println!("first time-out {} ms; after {} ms and the signal(s) the loop re-armed {} ms (at most {} ms are left until the chord is due)", first_ms, pause_ms, after_ms, first_ms - pause_ms as i64),
+      InterruptObs::Machinery(m) => println!("machinery: {}", m), InterruptObs::Unavailable(m) => println!("unavailable: {}", m) }
+    return 0;
+  }
   let layout: Layout = match serde_json::from_value(v["layout"].clone()) { Ok(l) => l, Err(e) => { eprintln!("bad layout: {}", e); return 2; } };
   if v["probe"] == "hangup" {
     println!("hang-up probe: keyboard = read end of a pipe, one key event, then the write end is closed with nothing unread");
